@@ -491,7 +491,7 @@ def run(ck):
             continue
         for k, (text, env) in enumerate(ins):
             rid = "ri:%s#%d" % (r["name"], k)
-            ireqs.append({"id": rid, "engine": "mem", "setup": RI.SETUP, "queries": [{"plan": text, "alts": {"rules": [r["name"]], "iters": 2}}]})
+            ireqs.append({"id": rid, "engine": env.get("engine", "mem"), "setup": RI.SETUP, "queries": [{"plan": text, "alts": {"rules": [r["name"]], "iters": 2}}]})
             imeta[rid] = (r, text, env)
     ires = {}
     if ireqs:
